@@ -43,6 +43,12 @@ def setup(ctx):
     pass
 
 
+def inconclusive_reasons(m):
+    """a watchdog firing without a structural deadlock proof is neither held nor violated"""
+    n = m["situations"].get("inconclusive_watchdog", 0)
+    return [f"{n} execution(s) hit the wall-clock watchdog without a structural proof of a deadlock"] if n else []
+
+
 def analyse(run, expected_text, out_path, viol, sit, wit):
     ev = run["events"]
     res = run["result"]
